@@ -167,6 +167,43 @@ def py_cwords(root, cells):
     return out
 
 
+def py_columns(root, cells):
+    """[(outermost table, column)] aligned with py_cwords: for a word inside a table the id of its OUTERMOST table and the
+    index of the cell (within its row of that table) that holds it; (0, 0) outside tables, column -1 for captions."""
+    d = {c[0]: c for c in cells}
+    out = []
+    stack = [(root, 0, -1)]
+    while stack:
+        n, otbl, col = stack.pop()
+        _i, c, _p, ks, ws = d[n]
+        if c == 2 and otbl == 0:
+            otbl = n
+        for _w in ws:
+            out.append((otbl, col if otbl else 0))
+        split = (c == 3 and otbl != 0 and d[n][2] == otbl)
+        for j in range(len(ks) - 1, -1, -1):
+            stack.append((ks[j], otbl, j if split else col))
+    return out
+
+
+def column_major(seq, cols):
+    """within every maximal run of words of one outermost table: stable sort by column (reading order of a table is
+    compared column-wise: splitting a row that is taller than a page continues each cell below itself)"""
+    res = []
+    i = 0
+    while i < len(seq):
+        t = cols[i][0]
+        j = i
+        while j < len(seq) and cols[j][0] == t:
+            j += 1
+        if t == 0:
+            res.extend(seq[i:j])
+        else:
+            res.extend(x for _k, x in sorted(zip(range(i, j), seq[i:j]), key=lambda kx: (cols[kx[0]][1], kx[0])))
+        i = j
+    return res
+
+
 def py_tables(root, cells):
     d = {c[0]: c for c in cells}
     res = {}
@@ -191,12 +228,18 @@ def labelled(cw):
     return [(w, secl.get(sec, 0), dep, refl.get(ref, 0)) for w, sec, dep, ref, _tbl in cw]
 
 
-def c07_compare(cw_before, tabs_before, cw_after):
+def c07_compare(cw_before, tabs_before, cw_after, cols_before=None, cols_after=None):
     """None if cleaning was lossless in the sense of C07, else (kind, detail).
     Reading order is compared on the body text (words outside references) and inside every reference
-    separately: a reference's text is a footnote, its position in the reading order is that of the note."""
+    separately: a reference's text is a footnote, its position in the reading order is that of the note.
+    With cols_* (py_columns of the two snapshots) the words of a table are read column by column on both sides
+    (a row split by split_big_table_cells continues every cell in the row below, in the same column)."""
     a = labelled(cw_before)
     b = labelled(cw_after)
+    if cols_before is not None and cols_after is not None and len(cols_before) == len(a) and len(cols_after) == len(b):
+        if [x[0] for x in a if not x[3]] != [x[0] for x in b if not x[3]]:
+            a = column_major(a, cols_before)
+            b = column_major(b, cols_after)
     wa = [x[0] for x in a]
     wb = [x[0] for x in b]
     if sorted(wa) != sorted(wb):
